@@ -44,7 +44,8 @@ def handle : List String → Verdict
       let faultHits := match limit with | some k => k < doc.length | none => false
       let lineOk := errKind != "expr" || (wantLines.splitOn ",").contains errLine
       let pred : Option String :=
-        if !isPrefix got doc then some s!"{comp}: writer received bytes that are not a prefix of the full document"
+        if errKind == "returned-nil-although-cancelled" then some s!"{comp}: the context was cancelled but Render returned nil ({got.length} bytes written)"
+        else if !isPrefix got doc then some s!"{comp}: writer received bytes that are not a prefix of the full document"
         else if errKind == "nil" && got != doc then some s!"{comp}: Render returned nil but the writer holds {got.length} of {doc.length} bytes"
         else if faultHits && errKind == "nil" then some s!"{comp}: writer failed at offset {limS} but Render returned nil"
         else if faultHits && errKind != "writer" && errKind != "expr" && errKind != "component" then some s!"{comp}: writer fault reported as {errKind}, does not wrap the cause"
